@@ -1,5 +1,6 @@
 import VibeProof.Model.Wire
 import VibeProof.Lemmas.Wire
+import VibeProof.Generated.Consts
 /-
 C27 — Wire-protocol message decoding is safe and respects framing.
 
@@ -338,6 +339,15 @@ theorem C27_full_holds : C27_full :=
    C27_decode_frame_bound, C27_decode_error_bound,
    C27_startup_frame_bound, C27_startup_error_bound,
    C27_decode_roundtrip, C27_startup_roundtrip⟩
+
+/-- the constants the model uses (type bytes tested by `decodeBody`, the two minimum lengths, the
+    SSL request code) are the ones messages.rs contains right now (table re-extracted from the
+    source on every run by tools/consts.d/c27.py) -/
+theorem C27_constants_match_source :
+    Generated.wireFrontendTypeBytes = [("Query", 0x51), ("Password", 0x70), ("Terminate", 0x58)] ∧
+    Generated.wireFrontendMinLen = 4 ∧ Generated.wireStartupMinLen = 8 ∧
+    (Generated.wireSslRequestCode : Int) = sslRequestCode := by
+  decide
 
 /-! ### non-vacuity: the hypotheses `wfMsg` / `wfStartup` are satisfied by ordinary messages -/
 
